@@ -90,7 +90,7 @@ func c13ExpectedMessage(msg string, node *GNode) string {
 func init() {
 	Register(Meta{
 		ID: "C13", Level: "exploration",
-		Rule: "deviation-bounded: slots = profile name, validation name, message, message followed by a placeholder, message between two placeholders (one referring to an absent property), message before a placeholder of an absent property, a value of an `in` / `containsAll` / `containsSome` list; token alphabet of 33 special tokens (quotes, backslash, percent forms, braces, a non-placeholder {{x}}, newline, tab, back-tick, $-variables of the embedding language, #, :, comma, bracket, the two-character sequences \\n and \\\", non-ASCII, non-BMP, <, >, &, |); a deviation is one token inserted at the start, middle or end of a plain base string. Bound 1 = every (slot, token, position); bound 2 (thorough) = every ordered pair of tokens in one slot and every pair across two slots. The YAML is emitted with double-quoted scalars and parsed back with yaml.v3 to confirm the intended string. Oracle: CompileProfile succeeds; profileName and sourceShapeName verbatim; resultMessage equals the reference rendering (placeholders -> value or null, double quote -> single quote, everything else byte-identical); the set of reported nodes equals the one obtained with the plain base string; a node whose value equals the special list value passes `in`/contains and one that differs fails. Non-trivial = every case (all contain a special token); distinct by profile text.",
+		Rule:        "deviation-bounded: slots = profile name, validation name, message, message followed by a placeholder, message between two placeholders (one referring to an absent property), message before a placeholder of an absent property, a value of an `in` / `containsAll` / `containsSome` list; token alphabet of 33 special tokens (quotes, backslash, percent forms, braces, a non-placeholder {{x}}, newline, tab, back-tick, $-variables of the embedding language, #, :, comma, bracket, the two-character sequences \\n and \\\", non-ASCII, non-BMP, <, >, &, |); a deviation is one token inserted at the start, middle or end of a plain base string. Bound 1 = every (slot, token, position); bound 2 (thorough) = every ordered pair of tokens in one slot and every pair across two slots. The YAML is emitted with double-quoted scalars and parsed back with yaml.v3 to confirm the intended string. Oracle: CompileProfile succeeds; profileName and sourceShapeName verbatim; resultMessage equals the reference rendering (placeholders -> value or null, double quote -> single quote, everything else byte-identical); the set of reported nodes equals the one obtained with the plain base string; a node whose value equals the special list value passes `in`/contains and one that differs fails. Non-trivial = every case (all contain a special token); distinct by profile text.",
 		Assumptions: []string{"placeholders refer to single-valued properties (multi-valued rendering is not defined by the statement)"},
 	}, c13Gen, c13Run)
 }
